@@ -93,6 +93,19 @@ impl Scratch {
                 }
             }
         }
+        // "symlinks": {"link path": "target path"} (both relative to the scratch directory): the link is what the command is given
+        if let Some(links) = job.get("symlinks").and_then(|f| f.as_object()) {
+            for (name, target) in links {
+                let p = dir.join(name);
+                if let Some(parent) = p.parent() {
+                    std::fs::create_dir_all(parent)?;
+                }
+                if let Some(t) = target.as_str() {
+                    let _ = std::fs::remove_file(&p);
+                    std::os::unix::fs::symlink(dir.join(t), &p)?;
+                }
+            }
+        }
         if let Some(mt) = job.get("mtimes").and_then(|f| f.as_object()) {
             for (name, secs) in mt {
                 let p = dir.join(name);
